@@ -12,11 +12,12 @@ MANIFEST = {
             "oracles evaluate inverse pair / Parseval / linearity / shift / centred-origin / real-variant clauses on the real code.",
     "note": "Trusted: Lean kernel + standard axioms; numpy.fft.fft/ifft/fft2 = the naive DFT sums and fft2 = nested 1-D transforms "
             "(checked numerically each run to 1e-9); binary64 rounding not modelled. Real-input variants: inverse pair/Parseval are "
-            "decided by the oracle (even n); odd n is an open finding (API cannot know the length).",
+            "proved for even n in 1-D (irft_rft), Parseval on half-spectra and the 2-D variants decided by the oracle; odd n is an open "
+            "finding (API cannot know the length).",
     "technique": "Lean 4 proof (roots of unity, induction-free algebra over Finset sums) + differential correspondence with the real code",
 }
 REQUIRED = ["ft_centred", "ift_ft", "ft_ift", "ft_linear", "ift_linear", "shift_theorem", "plancherel", "ift2_ft2",
-            "parseval", "fft_root_primitive"]
+            "parseval", "fft_root_primitive", "irft_rft"]
 TOL = 1e-9
 
 
@@ -67,6 +68,20 @@ def correspondence(chk, F, pkg, quick):
                 lines.append(cplx_line(op, n, d, x[idx]))
                 expect.append((impl[idx], impl_pkg[idx], numpy.abs(x[idx]).max() * (n * n if op == "ft2" else 1) * max(d * d, 1) + 1e-300))
                 desc.append((op, n, d, kind, batch))
+    # real-input variants, even lengths (the model mirrors the code's shifts of the half-spectrum)
+    for n in [2, 4, 6, 8, 10, 16, 32]:
+        x = rand_field(nprng, (n,), "real")
+        d = chk.rng.choice([1.0, 0.5, 0.25])
+        lines.append(cplx_line("rft", n, d, x))
+        e = F.rft(x, d)
+        expect.append((e, pkg.rft(x, d), numpy.abs(x).max() * n * max(d, 1) + 1e-300))
+        desc.append(("rft", n, d, "real", ()))
+        H = F.rft(rand_field(nprng, (n,), "real"), 1.0)      # a genuine half-spectrum (the domain of irft)
+        m = len(H)
+        lines.append(cplx_line("irft", m, d, H))
+        e = F.irft(H, d).astype(complex)
+        expect.append((e, pkg.irft(H, d).astype(complex), numpy.abs(H).max() * max(d, 1) * 2 + 1e-300))
+        desc.append(("irft", m, d, "half-spectrum", ()))
     # phasescreen.ift2 (2-D, no batch, even and odd): a different function with its own model
     from aotools.turbulence import phasescreen
     for n in [2, 3, 4, 5, 6, 8]:
@@ -269,7 +284,8 @@ def run(chk):
                 "on the real code; distinct = distinct (op, n, δ, data kind, batch, entry point)")
     chk.assumptions = ["numpy.fft kernels = naive DFT sums (contract checked numerically each run)",
                        "closeness of the sampled Gaussian's transform to the analytic Gaussian is numeric only (bound 2e-3·peak for σ = nδ/8)",
-                       "real-input variants (rft/irft/rft2/irft2): decided by the oracle, no Lean theorem yet; odd n is an open finding"]
+                       "real-input variants: irft(rft x)=x is proved for even n (irft_rft); half-spectrum Parseval and the 2-D variants "
+                       "rft2/irft2 are decided by the oracle only; odd n is an open finding"]
     import aotools
     from aotools import fouriertransform as F
     chk.build_and_audit("AoVerif.Props.C09", "AoVerif.Props.C09", REQUIRED)
